@@ -212,12 +212,12 @@ plan(Plan(
 ))
 plan(Plan(
     id="C10", title="Dependencies are validated, then resolve one per name to the highest version",
-    contracts=DEPS_FNS + [CORE + "HTMLDependency.__init__"],
+    contracts=DEPS_FNS + [CORE + "HTMLDependency.__init__", CORE + "HTMLDependency._validate_dicts#loops"],
     lean={"HV.C10": ["C10_resolve_names_nodup", "C10_resolve_order", "C10_resolve_is_max_earliest", "C10_resolve_max", "C10_resolve_subset", "C10_resolve_complete",
                      "C10_resolve_idem", "C10_collect_acc", "C10_collect_append", "C10_collect_dep", "C10_collect_tag", "C10_collect_other", "C10_dedup_false",
                      "C10_placement_independent"]},
     oracle="c10", design_ref="§7 C10", level="proof",
-    bounded=["B:C10:HTMLDependency.__init__ validation is verified on argument shapes with item lists of length <= 2 (contents symbolic): a bound on the list length",
+    bounded=["B:C10:HTMLDependency.__init__ is executed on argument shapes with item lists of length <= 2 (contents symbolic); that every item of a longer list is validated the same way follows from the independent-iteration rule on _validate_dicts (G:HTMLDependency._validate_dicts:loop0.independent-iterations, DESIGN 3.4), the key shapes of the items stay bounded",
              "B:C10:packaging.Version ordering (1.9 < 1.10 = 1.10.0 ...): exercised by the oracle with real Version objects"],
     assumptions=["packaging.Version comparison is a strict total order (its image in Int is the `ver` field); Version parsing is external",
                  "the constructor-validation clause is verified by executing __init__ (and _validate_dicts / _validate_dict in place) on every argument shape with lists of "
@@ -271,7 +271,7 @@ DOCP = CORE + "HTMLDocument."
 DOC_FNS = [DOCP + "_hoist_head_content", DOCP + "_gen_html_tag_tree", DOCP + "render"]
 plan(Plan(
     id="C11", title="HTMLDocument builds one head/body and hoists every dependency into head",
-    contracts=DOC_FNS + TAGIFY_FNS + DEPS_FNS + [CORE + "Tag.__copy__", CORE + "HTMLDependency.as_html_tags#record"],
+    contracts=DOC_FNS + TAGIFY_FNS + DEPS_FNS + [CORE + "Tag.__copy__", CORE + "HTMLDependency.as_html_tags#record", CORE + "HTMLDependency.as_html_tags#comps"],
     lean={"HV.C11": ["first_is_head", "replace_first_same", "nodes_depTagChildren", "hoist_el", "C11_root_is_html", "C11_head_count", "C11_one_head_generated",
                      "C11_head_content", "C11_rest_untouched", "C11_each_dep_once", "C11_listing", "C11_no_listing_without_deps", "C11_returned_deps", "C11_doctype"]},
     oracle="c11", design_ref="§7 C11",
@@ -283,7 +283,7 @@ plan(Plan(
                  "include_version); the function itself is verified separately on record dependencies with item lists of length <= 2: meta tags, then link tags, then script tags, then head",
                  "str(version) is an uninterpreted function of the version; head_content()'s naming is C18's subject",
                  "the content's `ordinary rendering` is the renderer contract of C05-C07 (rtag), used here through Tag.render"],
-    bounded=["B:C11:as_html_tags piece order and single occurrence in the rendered head: oracle with html.parser"],
+    bounded=["B:C11:as_html_tags piece order and single occurrence in the rendered head: oracle with html.parser (the record harness proves meta, link, script, head order on lists of length <= 2; G:HTMLDependency.as_html_tags:comp<k>.elementwise-map lifts the per-item part to every length)"],
 ))
 
 
@@ -300,7 +300,7 @@ def _jsx_purity_extra(ctx):
 plan(Plan(
     id="C08", title="Rendering and tagify are pure and consistent; tagify returns an independent copy",
     contracts=TAGIFY_FNS + DEPS_FNS + RENDER_FNS + DOC_FNS + [CORE + "Tag.__copy__", CORE + "_render_tag_or_taglist", CORE + "_equals_impl", CORE + "TagAttrDict._normalize_attr_name",
-               CORE + "HTMLDependency.source_path_map", CORE + "HTMLDependency.as_dict", CORE + "HTMLDependency.as_dict#loops", CORE + "HTMLDependency.as_html_tags#record", CORE + "HTMLDependency.serialize_to_script_json#record", "htmltools._jsx.JSXTag.__copy__"],
+               CORE + "HTMLDependency.source_path_map", CORE + "HTMLDependency.as_dict", CORE + "HTMLDependency.as_dict#loops", CORE + "HTMLDependency.as_html_tags#record", CORE + "HTMLDependency.as_html_tags#comps", CORE + "HTMLDependency.serialize_to_script_json#record", "htmltools._jsx.JSXTag.__copy__"],
     lean={"HV.C09": ["C08_tagify_id_T", "C08_tagify_id_L", "C08_tagify_fixed_point"],
           "HV.C08": ["C08_attrsEq_refl", "C08_eq_refl_N", "C08_eq_refl_L", "C08_eq_tag", "C08_eq_kinds", "C08_attrsEq_sound", "C08_nodesEq_cons", "C08_nodesEq_len", "C08_eq_text"],
           "HV.AttrFacts": ["C15_normName_idem"]},
@@ -315,7 +315,7 @@ plan(Plan(
                  "==: Tag / TagList / HTMLDependency.__eq__ are executed (through _equals_impl's body) on record views and proved equal to nodeEq / nodesEq / field-wise equality; "
                  "dict == dict is modelled as attrsEq (same keys, equal values, order irrelevant) and list == list as pairwise == (A3); a copied attribute map equals the original "
                  "because name normalisation is idempotent (C15_normName_idem over the verified _normalize_attr_name)"],
-    bounded=["B:C08:the record harnesses of the HTMLDependency methods use script / stylesheet / meta lists of length <= 2",
+    bounded=["B:C08:the record harnesses of the HTMLDependency methods execute script / stylesheet / meta lists of length <= 2; as_dict and as_html_tags are lifted to every length by the independent-iteration / comprehension-map rules (DESIGN 3.4), serialize_to_script_json has no loop",
              "B:C08:purity of save_html and of whole interleavings: bounded oracle deep snapshot with object identities"],
 ))
 
@@ -354,7 +354,7 @@ plan(Plan(
     id="C18", title="Output is deterministic across processes and independent of history",
     contracts=[UTIL + "hash_deterministic", CORE + "head_content", CORE + "_resolve_dependencies", CORE + "TagList.get_dependencies", CORE + "Tag.get_dependencies",
                TDP + "_static_extract_serialized_html_deps", CORE + "_render_tag_or_taglist", CORE + "Tag.__copy__", CORE + "HTMLDocument._gen_html_tag_tree", "htmltools._jsx.JSXTag.__copy__", CORE + "HTMLDependency.source_path_map", CORE + "HTMLDependency.as_dict", CORE + "HTMLDependency.as_dict#loops",
-               CORE + "HTMLDependency.as_html_tags#record", CORE + "HTMLDependency.serialize_to_script_json#record"] + TAGIFY_FNS + RENDER_FNS,
+               CORE + "HTMLDependency.as_html_tags#record", CORE + "HTMLDependency.as_html_tags#comps", CORE + "HTMLDependency.serialize_to_script_json#record"] + TAGIFY_FNS + RENDER_FNS,
     lean={"HV.C18": ["C18_name_function_of_content", "C18_names_injective", "C18_render_is_a_function"],
           "HV.C10": ["C10_resolve_order", "C10_resolve_names_nodup"], "HV.C13": ["C13_dedup_order", "C13_dedup_nodup"]},
     extra=_c18_extra, oracle="c18", design_ref="§7 C18",
@@ -405,7 +405,7 @@ def _c12_extra(ctx):
 DEPP = CORE + "HTMLDependency."
 plan(Plan(
     id="C12", title="Dependency URLs and copied files agree", level="other",
-    contracts=[DEPP + "source_path_map", DEPP + "as_dict", DEPP + "as_dict#loops", DEPP + "as_html_tags#record", CORE + "HTMLDocument.save_html", CORE + "Tag.save_html#delegates",
+    contracts=[DEPP + "source_path_map", DEPP + "as_dict", DEPP + "as_dict#loops", DEPP + "as_html_tags#record", DEPP + "as_html_tags#comps", CORE + "HTMLDocument.save_html", CORE + "Tag.save_html#delegates",
                CORE + "HTMLDocument._gen_html_tag_tree", CORE + "HTMLDocument._hoist_head_content"],
     lean={"HV.C12": ["C12_pjoin_assoc", "C12_copy_target_is_url_target", "C12_copy_target_is_url_target_nolib", "C12_local_url_shape"]},
     extra=_c12_extra, oracle="c12", design_ref="§7 C12", own=lambda name: True,
